@@ -105,7 +105,8 @@ def gen_spec(rng, i):
                          {'scale_bit': 4, 'shift_pos': 8}, {'scale_bit': 12, 'shift_pos': 24}])
         return {'seed': rng.randrange(1 << 30), 'cin': cin, 'hw': hw, 'wbits': rng.choice([2, 4, 8]), 'abits': rng.choice([2, 4, 8]),
                 'layers': layers, 'head': head, 'kwargs': kw, 'shape': shape, 'bias_mode': bias_mode,
-                'clip_lo': rng.choice([0.4, 0.4, 0.05]), 'clip_hi': 8.0}
+                'clip_lo': rng.choice([0.4, 0.4, 0.05]), 'clip_hi': 8.0,
+                'amix': rng.choice([None, None, [2, 4, 8], [2, 4, 8], [4, 8], [2, 8]])}
     raise RuntimeError('no valid spec')
 
 
@@ -126,6 +127,8 @@ def features(spec):
             fs.add('bn')
         if not L['bias']:
             fs.add('conv-no-bias')
+    if spec.get('amix'):
+        fs.add('mixed-act-precisions')
     if spec['head'] is None:
         fs.add('fullyconv')
     else:
@@ -211,7 +214,7 @@ def oracle_net(res, fail):
             if bad or rec.get('shape_mismatch'):
                 fail('maupiti-final-conv-layer:output-not-logits', 'layer %s (MAUPITIConv2d as the output layer): integer output %s, real-valued logit of the counterpart %s (channel %s)'
                      % (n, bad and bad[1], bad and bad[2], bad and bad[0]), info)
-            continue
+                continue
         if rec.get('shape_mismatch'):
             g = rec['geo'] or {}
             why = 'asym-padding' if g and g['pad'][0] != g['pad'][1] else 'other'
@@ -241,7 +244,7 @@ def oracle_net(res, fail):
                 fail('activation-out-of-range:%s' % be, 'layer %s: output not integer in [%d, %d] (min %s max %s)' % (n, -q['z_out'], 2 ** p - 1 - q['z_out'], rec['out_min'], rec['out_max']), info)
         if be == 'MAUPITI' and rec['conv'] and rec.get('pad_value') is not None and rec['geo']['pad'] != [0, 0]:
             if rec['pad_value'] != -q['z_in']:
-                fail('maupiti-pad-value', 'layer %s: padding value %s is not the offset image -%d of an unsigned zero' % (n, rec['pad_value'], q['z_in']), info)
+                fail('maupiti-mixed-activation-precision:pad-value' if (not rec['last'] and rec['p_in'] != rec['p_out']) else 'maupiti-pad-value', 'layer %s: padding value %s is not the offset image -%d of an unsigned zero' % (n, rec['pad_value'], q['z_in']), info)
         # per element
         for s in rec['samples']:
             c = s['c']
@@ -262,7 +265,8 @@ def oracle_net(res, fail):
                         tol = (F_(aabs) + abs(Bc) + 1) * t * Fraction(rec['nterms'] + 8, 2 ** 24)
                         near = abs(pre - round(pre)) <= tol
                         if d >= bound + (1 if near else 0):
-                            fail('error-above-bound:%s:%s' % (be, kind),
+                            mixed = be == 'MAUPITI' and rec['p_in'] != rec['p_out']
+                            fail(('maupiti-mixed-activation-precision:%s' % kind) if mixed else 'error-above-bound:%s:%s' % (be, kind),
                                  'layer %s channel %d position %d: integer output %d (unsigned image %d), counterpart code %d, distance %d, bound %.6f (acc %s, bias %d, scale %d, shift %d, target %.9g)'
                                  % (n, c, s['pos'][j], int(yi), int(yi) + q['z_out'], code_f, d, float(bound), acc, Bc, q['scale'][c], q['sh'], float(t)),
                                  dict(info, channel=c, position=s['pos'][j]))
@@ -392,6 +396,10 @@ def run(ctx):
         {'seed': 17, 'cin': 2, 'hw': [4, 4], 'wbits': 8, 'abits': 4, 'kwargs': {}, 'shape': 'corpus', 'bias_mode': 'mixed', 'clip_lo': 0.4, 'clip_hi': 8.0,
          'layers': [dict(kind='conv', cout=3, k=[3, 3], stride=[1, 1], pad=[1, 1], dil=[1, 1], dw=False, bias=True, bn=True, feat='plain')],
          'head': {'pool': False, 'bias': True, 'out': 3, 'hidden': 5, 'hidden_bias': False}},
+        {'seed': 3, 'cin': 2, 'hw': [6, 6], 'wbits': 8, 'abits': 4, 'kwargs': {}, 'amix': [2, 4, 8], 'shape': 'corpus', 'bias_mode': 'mixed', 'clip_lo': 0.4, 'clip_hi': 8.0,
+         'layers': [dict(kind='conv', cout=3, k=[3, 3], stride=[1, 1], pad=[1, 1], dil=[1, 1], dw=False, bias=True, bn=True, feat='plain'),
+                    dict(kind='conv', cout=4, k=[3, 3], stride=[1, 1], pad=[1, 0], dil=[1, 1], dw=False, bias=True, bn=False, feat='apad')],
+         'head': {'pool': False, 'bias': True, 'out': 3, 'hidden': 5, 'hidden_bias': False}},
         {'seed': 15, 'cin': 2, 'hw': [6, 6], 'wbits': 8, 'abits': 8, 'kwargs': {}, 'shape': 'corpus', 'bias_mode': 'all', 'clip_lo': 0.4, 'clip_hi': 8.0,
          'layers': [dict(kind='conv', cout=3, k=[3, 3], stride=[1, 1], pad=[1, 1], dil=[1, 1], dw=False, bias=True, bn=False, feat='plain'),
                     dict(kind='conv', cout=2, k=[3, 3], stride=[1, 1], pad=[0, 0], dil=[1, 1], dw=False, bias=True, bn=False, feat='plain')],
@@ -446,6 +454,11 @@ def run(ctx):
             ctx.notes.append('export raised %s for %s' % (res['status'], features(spec)))
         oracle_net(res, fail)
         nlayers += len(res.get('layers', []))
+        for rec in res.get('layers', []):
+            if not rec['last'] and rec['p_in'] != rec['p_out']:
+                ctx.dist['layer:p_in!=p_out:%s' % spec['backend']] += 1
+            if rec['last'] and rec['conv']:
+                ctx.dist['layer:final-conv:%s' % spec['backend']] += 1
     ctx.extra['layers_observed'] = nlayers
     for res in unres:
         st = res['status']
@@ -513,8 +526,6 @@ def run(ctx):
                 for rec in res['layers']:
                     if rec.get('shape_mismatch'):
                         continue
-                    if be == 'MAUPITI' and rec['conv'] and rec['last']:
-                        continue      # no last-layer form exists for MAUPITIConv2d (open finding maupiti-final-conv-layer:*): nothing to model
                     q = layer_quantities(rec, be)
                     inf = {'spec': spec, 'layer': rec['name']}
                     sb, sp = rec['scale_bit'], rec['shift_pos']
@@ -579,8 +590,8 @@ def run(ctx):
                             e = 'run_zero_point_last %s %s' % (coq(q['z_in']), coq(zl))
                             mag = [abs(addb[c]) + q['z_in'] * q['scale'][c] * abs(q['sumW'][c]) for c in range(rec['cout'])]
                         else:
-                            e = 'run_zero_point %s %s %s' % (coq(q['z_out']), coq(Nat(q['sh'])), coq(zl))
-                            mag = [abs(addb[c]) + q['z_out'] * 2 ** q['sh'] + q['z_out'] * q['scale'][c] * abs(q['sumW'][c]) for c in range(rec['cout'])]
+                            e = 'run_zero_point2 %s %s %s %s' % (coq(q['z_in']), coq(q['z_out']), coq(Nat(q['sh'])), coq(zl))
+                            mag = [abs(addb[c]) + q['z_out'] * 2 ** q['sh'] + q['z_in'] * q['scale'][c] * abs(q['sumW'][c]) for c in range(rec['cout'])]
 
                         def h_zp(v, rec=rec, mag=mag, inf=inf):
                             ctx.corr += 1
@@ -588,7 +599,7 @@ def run(ctx):
                                 mism.append(('_zero_point', inf, rec['zero_point'], v))
                         add(e, h_zp)
                     if be == 'MAUPITI' and rec['conv'] and rec.get('pad_value') is not None:
-                        add('maupiti_pad_value %s' % coq(Nat(rec['p_out'] if not rec['last'] else rec['p_in'])), cmp_eq('padding value', int(rec['pad_value']), inf))
+                        add('maupiti_pad_value %s' % coq(Nat(rec['p_in'])), cmp_eq('padding value', int(rec['pad_value']), inf))
                     # (d) requantized outputs on the same accumulators
                     if not rec['last']:
                         p = rec['p_out']
@@ -600,8 +611,8 @@ def run(ctx):
                         else:
                             accsm = [[qn(a) - q['z_in'] * q['sumW'][s['c']] for a in s['acc']] for s in rec['samples']]
                             items = [(q['scale'][s['c']], addb[s['c']], q['sumW'][s['c']], am) for s, am in zip(rec['samples'], accsm)]
-                            e = 'run_maupiti %s %s %s' % (coq(Nat(p)), coq(Nat(q['sh'])), coq(items))
-                            adds = [addb[s['c']] - q['z_out'] * 2 ** q['sh'] + q['z_out'] * q['scale'][s['c']] * q['sumW'][s['c']] for s in rec['samples']]
+                            e = 'run_maupiti2 %s %s %s %s' % (coq(Nat(rec['p_in'])), coq(Nat(p)), coq(Nat(q['sh'])), coq(items))
+                            adds = [addb[s['c']] - q['z_out'] * 2 ** q['sh'] + q['z_in'] * q['scale'][s['c']] * q['sumW'][s['c']] for s in rec['samples']]
 
                         def h_rq(v, rec=rec, q=q, inf=inf, accsm=accsm, adds=adds, be=be):
                             for s, mv, am, ad in zip(rec['samples'], v, accsm, adds):
@@ -643,7 +654,7 @@ def run(ctx):
                                         mism.append(('distance to the exact counterpart code above the proved bound + 1', dict(inf, channel=c, position=s['pos'][j]), d, float(bound)))
                         add(e, h_fq)
                     else:
-                        if be == 'MAUPITI' and not rec['conv']:
+                        if be == 'MAUPITI':
                             accsm = [[qn(a) - q['z_in'] * q['sumW'][s['c']] for a in s['acc']] for s in rec['samples']]
                             items = [(q['scale'][s['c']], addb[s['c']], q['sumW'][s['c']], am) for s, am in zip(rec['samples'], accsm)]
                             e = 'run_maupiti_last %s %s %s' % (coq(q['z_in']), coq(Nat(q['sh'])), coq(items))
